@@ -689,3 +689,27 @@ fn c13_servings_number() {
 
 // NOTE: a harness on `value_as_tags` (YAML list of three one-byte strings) was measured and dropped: CBMC did not
 // finish within 900 s (Cow<str> equality + Vec<Cow> growth).
+
+// ---------------------------------------------------------------------------------------------
+// K-7: RecipeTime::total - the sum of preparation and cooking time never overflows / panics
+
+#[kani::proof]
+#[kani::unwind(4)]
+fn c13_recipe_time_total() {
+    let total: bool = kani::any();
+    let t = if total {
+        RecipeTime::Total(kani::any())
+    } else {
+        RecipeTime::Composed { prep_time: kani::any(), cook_time: kani::any() }
+    };
+    let r = t.total();
+    match t {
+        RecipeTime::Total(x) => assert!(r == x),
+        RecipeTime::Composed { prep_time, cook_time } => {
+            let want = prep_time.unwrap_or(0) as u64 + cook_time.unwrap_or(0) as u64;
+            // the documented total is prep + cook; when that does not fit the type the accessor must not wrap
+            assert!(r as u64 == want || want > u32::MAX as u64);
+            assert!(r as u64 <= want);
+        }
+    }
+}
